@@ -1,20 +1,21 @@
 //! Scripted child for C19: writes patterns to stdout / stderr with unbuffered `write(2)` calls.
-//! usage: child <seq|par> <items>   items = `o|e.<len>.<seed>.<delay ms>` separated by `;` (`-` = none);
-//! byte i of an item is (seed + i) % 251. `seq`: the items in order from one thread; `par`: the stdout items from one
+//! usage: child <seq|par> <items>   items = `o|e.<len>.<seed>.<delay ms>[.t]` separated by `;` (`-` = none);
+//! byte i of an item is (seed + i) % 251, with `.t` (text: lower-case letters, never a newline) 97 + (seed + i) % 26; the
+//! delay comes before the item's (single, unbuffered) write. `seq`: the items in order from one thread; `par`: the stdout items from one
 //! thread and the stderr items from another, simultaneously. Writes its pid to $CNBV_PIDFILE (so that a watchdog can kill
 //! it) and exits on its own after 200 s whatever happens.
 use std::io::Write;
 use std::mem::ManuallyDrop;
 use std::os::fd::FromRawFd;
 
-fn item_bytes(len: usize, seed: usize) -> Vec<u8> { (0..len).map(|i| ((seed + i) % 251) as u8).collect() }
+fn item_bytes(len: usize, seed: usize, text: bool) -> Vec<u8> { (0..len).map(|i| if text { (97 + (seed + i) % 26) as u8 } else { ((seed + i) % 251) as u8 }).collect() }
 
-fn emit(items: &[(bool, usize, usize, u64)]) -> bool {
+fn emit(items: &[(bool, usize, usize, u64, bool)]) -> bool {
     let mut out = ManuallyDrop::new(unsafe { std::fs::File::from_raw_fd(1) });
     let mut err = ManuallyDrop::new(unsafe { std::fs::File::from_raw_fd(2) });
-    for &(st, len, seed, delay) in items {
+    for &(st, len, seed, delay, text) in items {
         if delay > 0 { std::thread::sleep(std::time::Duration::from_millis(delay)); }
-        let b = item_bytes(len, seed);
+        let b = item_bytes(len, seed, text);
         let r = if st { err.write_all(&b) } else { out.write_all(&b) };
         if r.is_err() { return false; }
     }
@@ -31,10 +32,10 @@ fn main() {
     if spec != "-" && !spec.is_empty() {
         for it in spec.split(';') {
             let p: Vec<&str> = it.split('.').collect();
-            if p.len() != 4 { std::process::exit(2); }
+            if p.len() != 4 && !(p.len() == 5 && p[4] == "t") { std::process::exit(2); }
             let st = match p[0] { "o" => false, "e" => true, _ => std::process::exit(2) };
             let (Ok(len), Ok(seed), Ok(delay)) = (p[1].parse(), p[2].parse(), p[3].parse()) else { std::process::exit(2) };
-            items.push((st, len, seed, delay));
+            items.push((st, len, seed, delay, p.len() == 5));
         }
     }
     let ok = if mode == "par" {
